@@ -69,8 +69,7 @@ func observeC01(c *Case, in *PacketIn, prev []byte) {
 		} else if writeRes(&c.O, uerr) {
 			writePacketObs(&c.O, fresh)
 		}
-		dirty := &rtp.Packet{}
-		try(func() { _ = dirty.Unmarshal(cloneBytes(prev)) })
+		dirty := caDirtyReceiver(c, prev)
 		if try(func() { uerr = dirty.Unmarshal(wire) }) {
 			c.O.Panic()
 		} else if writeRes(&c.O, uerr) {
@@ -133,6 +132,49 @@ func caGenPrev(c *Case) []byte {
 	q := genPacketWF(c.R, 40).Build()
 	b, _ := q.Marshal()
 	return b
+}
+
+// caDirtyReceiver prepares a REUSED receiver: it decoded `prev` before and, half of the time, was then
+// USED the way a decoded header is used before the next packet arrives — a few DelExtension /
+// SetExtension calls (an element removed from the middle of the list, a value replaced, an id added),
+// now and then followed by one more decode of another packet.  What C01 says about the next decode
+// does not depend on any of this, so the history is not part of the model's input (`prev` is, as the
+// first decode); it is drawn from the case's PRNG like everything else.
+func caDirtyReceiver(c *Case, prev []byte) *rtp.Packet {
+	d := &rtp.Packet{}
+	try(func() { _ = d.Unmarshal(cloneBytes(prev)) })
+	if c.R.Bool() {
+		return d
+	}
+	c.Tag("receiver=decoded+edited")
+	for i, n := 0, c.R.Pick(1, 1, 2, 3, 4); i < n; i++ {
+		ids := d.Header.GetExtensionIDs()
+		try(func() {
+			switch {
+			case len(ids) > 0 && c.R.Chance(2, 3):
+				// mostly not the last one: the elements behind it move up
+				k := c.R.Intn(len(ids))
+				if len(ids) > 1 && c.R.Bool() {
+					k = c.R.Intn(len(ids) - 1)
+				}
+				_ = d.Header.DelExtension(ids[k])
+			case len(ids) > 0 && c.R.Bool():
+				_ = d.Header.SetExtension(ids[c.R.Intn(len(ids))], c.R.Bytes(c.R.Pick(1, 2, 4, 16, 20)))
+			default:
+				_ = d.Header.SetExtension(uint8(c.R.Pick(0, 1, 5, 14, 15, 200)), c.R.Bytes(c.R.Pick(1, 2, 4, 16, 20)))
+			}
+		})
+	}
+	if c.R.Chance(1, 4) {
+		c.Tag("receiver=decoded+edited+decoded")
+		q := genPacketWFNarrow(c.R, 20).Build()
+		try(func() {
+			if b, err := q.Marshal(); err == nil {
+				_ = d.Unmarshal(b)
+			}
+		})
+	}
+	return d
 }
 
 // caTagged reports whether the case carries the tag.
